@@ -285,7 +285,8 @@ Definition string_parse (s : str) : res str :=
   | Raise _ => Raise InvalidRegistryValue
   end.
 Definition needs_quoting (s : str) : bool :=
-  existsb (fun x => negb (mem x gen.T15.STRING_PRINTABLE)) s && negb (seq_eqb (strip_ws s) s).
+  if both_quoted s then true        (* set() would evaluate it as a quoted string *)
+  else existsb (fun x => negb (mem x gen.T15.STRING_PRINTABLE)) s && negb (seq_eqb (strip_ws s) s).
 Definition string_str (v : str) : str := if needs_quoting v then py_repr v else v.
 
 (* ------------------------------------------------------------------ *)
@@ -426,14 +427,16 @@ Definition value_line (name : str) (k : kind) (v : pv) : str :=
 
 Fixpoint count_trailing (c : N) (r : str) : nat :=    (* on the reversed line *)
   match r with x :: r' => if x =? c then S (count_trailing c r') else O | [] => O end.
-(* re.split(r'(?<!\\): ', acc, 1) *)
-Fixpoint split_kv (prev_bsl : bool) (s : str) : option (str * str) :=
+(* (key, slashes, value) = re.split(<not after a backslash><pairs of backslashes, captured>': ', acc, 1),
+   key + slashes: the separator is the first ': ' preceded by an even number of backslashes.
+   [esc] = an odd number of backslashes immediately precedes the current position *)
+Fixpoint split_kv (esc : bool) (s : str) : option (str * str) :=
   match s with
   | c :: s' =>
       match s' with
       | d :: s'' =>
-          if (c =? COLON) && (d =? SP) && negb prev_bsl then Some ([], s'')
-          else match split_kv (c =? BSL) s' with Some (a, b) => Some (c :: a, b) | None => None end
+          if (c =? COLON) && (d =? SP) && negb esc then Some ([], s'')
+          else match split_kv ((c =? BSL) && negb esc) s' with Some (a, b) => Some (c :: a, b) | None => None end
       | [] => None
       end
   | [] => None
